@@ -283,7 +283,7 @@ func c02Seq(tier string) []SeqJob {
 		for _, k := range keys {
 			alpha = append(alpha, Op{K: "set", Key: k, Cost: 1}, Op{K: "del", Key: k}, Op{K: "setttl", Key: k, Cost: 1, TTL: 1000})
 		}
-		alpha = append(alpha, Op{K: "clear"}, Op{K: "advance", N: 2000}, Op{K: "sweep"})
+		alpha = append(alpha, Op{K: "clear"}, Op{K: "advance", N: 2000}, Op{K: "sweep"}, Op{K: "drain"})
 		spec := &SeqSpec{Cfg: Cfg{NumCounters: 16, MaxCost: 2, BufferItems: 2, SetBuf: sb, KeyHash: hash, TTLTick: 2, BucketSecs: 1}, MaxDepth: depth,
 			Alphabet: func(r *SeqRun) []Op { return alpha },
 			Oracle: func(r *SeqRun) []Viol {
